@@ -153,7 +153,7 @@ def run(ctx):
     counts["consequence_dqn"] = used
     if used < (40 if quick else 150):
         raise tlc.TLCError(f"only {used} consequence-clause cases could be run on real agents")
-    for kind in ("vector", "discrete", "image"):
+    for kind in ("vector", "discrete", "image", "image-bn"):
         fails, n = op.check_consequence_ma(ctx.seed, kind)
         report(fails)
         counts["consequence_ma"] += n
